@@ -206,3 +206,28 @@ func (y *Yaml) GetMapKeys() ([]string, error) {
 	sort.Strings(keys)
 	return keys, nil
 }
+
+// FindAlias returns the position of the first alias node (*name) in the document, if there is one. The accessors above
+// only know scalars, mappings and sequences: an alias is read as a node without content, so whatever it stands for would
+// silently be dropped.
+func (y *Yaml) FindAlias() (found bool, line int, column int) {
+	if y.data == nil {
+		return false, 0, 0
+	}
+	if alias := findAlias(y.data); alias != nil {
+		return true, alias.Line, alias.Column
+	}
+	return false, 0, 0
+}
+
+func findAlias(n *yaml.Node) *yaml.Node {
+	if n.Kind == yaml.AliasNode {
+		return n
+	}
+	for _, c := range n.Content {
+		if alias := findAlias(c); alias != nil {
+			return alias
+		}
+	}
+	return nil
+}
